@@ -1,12 +1,305 @@
-"""C06: structural clauses (see DESIGN.md section 4)."""
+"""C06 n-gram lookup model: ARPA re-dispatch (G6), kernel binding (G1), buffer layout
+agreement between builder and readers (G12), load_state_dict definite assignment (G10/G13),
+one code path for full/chunked (G16), unsigned NumPy scalars (G21)."""
 from __future__ import annotations
 
+import ast
+
 from rules import fwd as R_fwd
+from rules.narrowint import NarrowInt
+from sa.astutil import call_name, u
+from sa.defuse import ReachingDefs
+from sa.model import AnalysisError, own_calls, own_nodes
+from sa.norm import Normalizer, padd, pstr
+from sa.paths import PathEnumerator
+from sa.resolve import bind_args
 from .common import Ctx, plumbing
+
+MOD = "_lm"
+CLS = "LookupLanguageModel"
+KERNEL = "_lookup_calc_idx_log_probs"
+REN = {"self.vocab_size": "V", "self.max_ngram": "N", "self.max_ngram_nodes": "G", "self.shift": "shift",
+       "self.sos": "sos", "self.max_direct_descendants": "S"}
+
+
+def _ren(s: str) -> str:
+    for k in sorted(REN, key=len, reverse=True):
+        s = s.replace(k, REN[k])
+    return s
+
+
+def _single_assign_subst(f, names=None):
+    """{name: value expr} for names assigned exactly once (incl. parallel tuple assignment)."""
+    cnt, val = {}, {}
+    for n in own_nodes(f.node):
+        if isinstance(n, ast.Assign) and len(n.targets) == 1:
+            t, v = n.targets[0], n.value
+            pairs = []
+            if isinstance(t, ast.Name):
+                pairs = [(t.id, v)]
+            elif isinstance(t, ast.Tuple) and isinstance(v, ast.Tuple) and len(t.elts) == len(v.elts):
+                pairs = [(a.id, b) for a, b in zip(t.elts, v.elts) if isinstance(a, ast.Name)]
+            elif isinstance(t, ast.Tuple):
+                for a in t.elts:
+                    if isinstance(a, ast.Name):
+                        cnt[a.id] = cnt.get(a.id, 0) + 2
+            for k, b in pairs:
+                cnt[k] = cnt.get(k, 0) + 1
+                val[k] = b
+        elif isinstance(n, (ast.AugAssign, ast.For)):
+            tg = n.target
+            for x in ast.walk(tg):
+                if isinstance(x, ast.Name):
+                    cnt[x.id] = cnt.get(x.id, 0) + 2
+    return {k: v for k, v in val.items() if cnt.get(k) == 1 and (names is None or k in names)}
 
 
 def run(ctx: Ctx):
-    plumbing(ctx, 'S1')
-    R_fwd.g6_redispatch(ctx.pkg, ctx.res, ctx.col, clause='S1', only={'parse_arpa_lm'})
-    ctx.col.floor('g6_redispatch_sites', ctx.col.counts.get('g6_redispatch_sites', 0), 1)
-    return dict(explanation='plumbing clauses only (work in progress)', decided=['S1'], not_decided=[])
+    col, pkg, res = ctx.col, ctx.pkg, ctx.res
+    rel = pkg.module(MOD).relname
+    W = lambda m: f"{rel}::{CLS}.{m}"
+    kern = pkg.func(f"{MOD}::{KERNEL}")
+    build = pkg.func(f"{MOD}::{CLS}._build_trie")
+    load = pkg.func(f"{MOD}::{CLS}.load_state_dict")
+    infer = pkg.func(f"{MOD}::{CLS}._infer_max_direct_descendants")
+    init = pkg.func(f"{MOD}::{CLS}.__init__")
+    calc = pkg.func(f"{MOD}::{CLS}.calc_idx_log_probs")
+
+    # ---- S1 ARPA path/file re-dispatch ---------------------------------------------------------
+    R_fwd.g6_redispatch(pkg, res, col, clause="S1", only={"parse_arpa_lm"})
+    col.floor("g6_redispatch_sites", col.counts.get("g6_redispatch_sites", 0), 1)
+
+    # ---- S2 kernel binding -------------------------------------------------------------------------
+    calls = [c for c in own_calls(calc.node) if call_name(c) == KERNEL]
+    col.floor("kernel_calls", len(calls), 1)
+    want = {"hist": "hist", "hidx": "idx", "offsets": "self.offsets", "ids": "self.ids", "logps": "self.logps",
+            "logbs": "self.logbs", "sos": "self.sos", "V": "self.vocab_size", "N": "self.max_ngram",
+            "G": "self.max_ngram_nodes", "S": "self.max_direct_descendants"}
+    for c in calls:
+        b = bind_args(c, kern, False)
+        got = {p.name: u(a) for p, a, _ in b.pairs}
+        for k in sorted(set(want) | set(got)):
+            col.ob("G1", "S2", f"{W('calc_idx_log_probs')}::{KERNEL}({k}<-{got.get(k)})", got.get(k) == want.get(k),
+                   f"kernel formal `{k}` receives `{got.get(k)}`, expected `{want.get(k)}` (five bare ints and four "
+                   f"buffers are mutually transposable)", rel, c.lineno, sample=dict(formal=k, arg=got.get(k)))
+
+    # ---- S3 layout constants ------------------------------------------------------------------------
+    def layout(f, ids_store: bool):
+        """(U, size(ids), size(logps), size(logbs)) as canonical polys, O kept symbolic."""
+        sub = _single_assign_subst(f)
+        # U: the name subtracted inside a subscript of `ids`
+        uname = None
+        for n in own_nodes(f.node):
+            if isinstance(n, ast.Subscript) and u(n.value) == "ids":
+                for x in ast.walk(n.slice):
+                    if isinstance(x, ast.BinOp) and isinstance(x.op, ast.Sub) and isinstance(x.right, ast.Name):
+                        uname = x.right.id
+        if uname is None or uname not in sub:
+            raise AnalysisError(f"C06: cannot locate the unigram offset U in {f.qualname}")
+        keep = {k: v for k, v in sub.items() if k not in ("O", "shift")}
+        # names bound from self.* by parallel assignment are substituted, then renamed
+        nz = Normalizer(rename=_ren, subst=keep)
+        return uname, nz, sub
+
+    ub, nzb, subb = layout(build, True)
+    uk, nzk, subk = layout(kern, False)
+    Ub, Uk = pstr(nzb.poly(ast.Name(id=ub, ctx=ast.Load()))), pstr(nzk.poly(ast.Name(id=uk, ctx=ast.Load())))
+    col.ob("G12", "S3", f"{rel}::layout::U(builder==kernel)", Ub == Uk,
+           f"the builder places n-gram ids at offset U = {Ub}, the kernel reads them at U = {Uk}", rel, kern.line,
+           sample=dict(builder=Ub, kernel=Uk))
+    # sizes: builder allocates torch.zeros(<size>) for each buffer; kernel asserts (ids, logps, logbs) sizes
+    alloc = {}
+    for n in own_nodes(build.node):
+        if isinstance(n, ast.Assign) and isinstance(n.value, ast.Call) and call_name(n.value) == "torch.zeros" \
+                and isinstance(n.targets[0], ast.Name) and n.value.args:
+            alloc[n.targets[0].id] = pstr(nzb.poly(n.value.args[0]))
+    asserted = {}
+    for n in own_nodes(kern.node):
+        if isinstance(n, ast.Assert) and isinstance(n.test, ast.Compare) and isinstance(n.test.left, ast.Tuple) \
+                and isinstance(n.test.comparators[0], ast.Tuple):
+            for l, r in zip(n.test.left.elts, n.test.comparators[0].elts):
+                if isinstance(l, ast.Call) and isinstance(l.func, ast.Attribute) and l.func.attr == "numel":
+                    asserted[u(l.func.value)] = pstr(nzk.poly(r))
+    col.floor("kernel_asserted_sizes", len(asserted), 3)
+    for buf in ("ids", "logps", "logbs"):
+        a, b = alloc.get(buf), asserted.get(buf)
+        col.ob("G12", "S3", f"{rel}::layout::size({buf})(builder==kernel)", a is not None and a == b,
+               f"the builder allocates `{buf}` with {a} entries, the kernel expects {b}", rel, kern.line,
+               sample=dict(buffer=buf, builder=a, kernel=b))
+    col.ob("G12", "S3", f"{rel}::layout::size(offsets)==size(logbs)", alloc.get("offsets") == alloc.get("logbs"),
+           f"offsets has {alloc.get('offsets')} entries but logbs {alloc.get('logbs')}", rel, build.line)
+    # the kernel's O is offsets.numel()
+    okO = "O" in subk and u(subk["O"]) == "offsets.numel()" or any(
+        isinstance(n, ast.Assign) and "offsets.numel()" in u(n.value) and "O" in u(n.targets[0]) for n in own_nodes(kern.node))
+    col.ob("G12", "S3", f"{rel}::{KERNEL}::O=offsets.numel()", okO, "the kernel's O is not offsets.numel()", rel, kern.line)
+    # shift: three definitions agree
+    shifts = {}
+    for f, tag in ((kern, KERNEL), (infer, "_infer_max_direct_descendants"),
+                   (pkg.func(f"{MOD}::{CLS}.shift"), "shift")):
+        for n in own_nodes(f.node):
+            if isinstance(n, ast.IfExp) and isinstance(n.test, ast.Compare) and len(n.test.ops) == 2:
+                shifts[tag] = _ren(u(n))
+    col.floor("shift_definitions", len(shifts), 3)
+    col.ob("G12", "S3", f"{rel}::layout::shift-definitions-agree",
+           len(set(shifts.values())) == 1 and set(shifts.values()) == {"0 if 0 <= sos < V else 1"},
+           f"the sos shift is defined as {shifts}", rel, kern.line, sample=shifts)
+    # U in load_state_dict / _infer_max_direct_descendants is the N>1 instance: V + shift + 1
+    for f, tag in ((load, "load_state_dict"), (infer, "_infer_max_direct_descendants")):
+        sub = _single_assign_subst(f)
+        cand = None
+        for n in own_nodes(f.node):
+            if isinstance(n, ast.Assign) and any(isinstance(t, ast.Name) and t.id == "U" for t in n.targets):
+                cand = n.value
+        if cand is None:
+            raise AnalysisError(f"C06: U not found in {tag}")
+        nz = Normalizer(rename=_ren)
+        s_ = _ren(pstr(nz.poly(cand))).replace("0 if 0 <= sos < V else 1", "shift")
+        col.ob("G12", "S3", f"{W(tag)}::U=V+shift+1", s_ in ("1 + V + shift", "1 + shift + V") or
+               sorted(s_.split(" + ")) == ["1", "V", "shift"],
+               f"{tag} uses U = {s_}; the builder's layout for order > 1 is V + shift + 1", rel, cand.lineno, sample=s_)
+
+    # ---- S4 load_state_dict: every derived attribute and buffer is (re)assigned -----------------------
+    regs = [c.args[0].value for c in own_calls(init.node) if isinstance(c.func, ast.Attribute)
+            and c.func.attr == "register_buffer" and c.args and isinstance(c.args[0], ast.Constant)]
+    col.floor("registered_buffers", len(regs), 4)
+    req = None
+    for n in own_nodes(load.node):
+        if isinstance(n, ast.Set) and all(isinstance(x, ast.Constant) for x in n.elts) and len(n.elts) >= 3:
+            req = {x.value for x in n.elts}
+    col.ob("G13", "S4", f"{W('load_state_dict')}::required-keys==registered-buffers", req == set(regs),
+           f"load_state_dict requires {sorted(req or [])}; registered buffers are {sorted(regs)}", rel, load.line)
+    derived = ("max_ngram", "max_ngram_nodes", "max_direct_descendants")
+
+    def ev(n):
+        if isinstance(n, (ast.Assign, ast.AugAssign)):
+            tgts = n.targets if isinstance(n, ast.Assign) else [n.target]
+            for t in tgts:
+                for x in ([t] if not isinstance(t, ast.Tuple) else t.elts):
+                    if isinstance(x, ast.Attribute) and u(x.value) == "self":
+                        if isinstance(n, ast.Assign) and len(tgts) > 1 or isinstance(t, ast.Tuple):
+                            pass
+                        return "SET:" + x.attr
+        if isinstance(n, ast.Call) and isinstance(n.func, ast.Attribute) and n.func.attr == "load_state_dict" \
+                and isinstance(n.func.value, ast.Call) and call_name(n.func.value) == "super":
+            return "SUPER"
+        return None
+
+    # chained assignment `self.a = b = v` sets only self.a; handled since we return on first self target
+    paths = PathEnumerator(ev, loop_iters=(0, 1, 2), exc_edges=False).paths(load.node.body)
+    col.floor("load_state_dict_paths", len(paths), 4)
+    bad = None
+    nret = 0
+    for p in paths:
+        if p.exit == "raise":
+            continue
+        nret += 1
+        labs = p.labels()
+        if "SUPER" not in labs:
+            bad = bad or (p, "does not call super().load_state_dict")
+            continue
+        before = labs[: labs.index("SUPER")]
+        for a in derived:
+            if "SET:" + a not in before:
+                bad = bad or (p, f"self.{a} is not assigned before the buffers are loaded")
+        for bname in regs:
+            if "SET:" + bname not in before:
+                bad = bad or (p, f"buffer `{bname}` is not re-allocated to the incoming size before loading")
+    col.ob("G10", "S4", f"{W('load_state_dict')}::definite-assignment", bad is None and nret >= 2,
+           (f"a non-raising path {bad[1]}: " + bad[0].describe()[:300]) if bad else "", rel, load.line,
+           sample=dict(paths=len(paths), non_raising=nret))
+    # each re-allocation takes its shape from the same-named incoming tensor
+    for n in own_nodes(load.node):
+        if isinstance(n, ast.Assign) and isinstance(n.targets[0], ast.Attribute) and u(n.targets[0].value) == "self" \
+                and n.targets[0].attr in regs and isinstance(n.value, ast.Call):
+            a = n.targets[0].attr
+            src = u(n.value.args[0]) if n.value.args else None
+            col.ob("G13", "S4", f"{W('load_state_dict')}::realloc({a})<-{src}", src == a,
+                   f"buffer `{a}` is re-allocated like `{src}`", rel, n.lineno, sample=u(n))
+
+    # ---- S5 one code path -------------------------------------------------------------------------------
+    full = pkg.func(f"{MOD}::{CLS}.calc_full_log_probs")
+    rets = [st for st, _ in ReachingDefs(full.node).return_envs]
+    ok5 = len(rets) == 1 and isinstance(rets[0].value, ast.Call) and u(rets[0].value.func) == "self.calc_full_log_probs_chunked" \
+        and [u(a) for a in rets[0].value.args] == ["hist", "prev", "1"]
+    col.ob("G16", "S5", f"{W('calc_full_log_probs')}::=chunked(hist, prev, 1)", ok5,
+           "calc_full_log_probs is not calc_full_log_probs_chunked(hist, prev, 1): 'all at once' and 'in chunks' "
+           "would be different code", rel, full.line, sample=u(rets[0].value) if rets else None)
+
+    # ---- S6 unsigned numpy scalars ------------------------------------------------------------------------
+    ni = NarrowInt(build)
+    fs = ni.findings()
+    col.count("narrowint_ctor_vars", len(ni.ctor_vars))
+    col.ob("G21", "S6", f"{W('_build_trie')}::unsigned-ctor-tracked", len(ni.ctor_vars) >= 1,
+           "no possibly-unsigned NumPy scalar constructor found in _build_trie (rule would be vacuous)", rel,
+           build.line, nontrivial=False)
+    names = sorted({nm for _, k, nm in fs if k in ("decrement", "subtract", "negate")} &
+                   {nm for _, k, nm in fs if k == "sign-test"})
+    col.ob("G21", "S6", f"{W('_build_trie')}::unsigned-scalar-decremented-and-sign-tested", not names,
+           f"`{names[0] if names else ''}` may hold an unsigned NumPy scalar (np.uint8(...) read back from the parents "
+           f"table; under NumPy 2 `uint8 + int` stays uint8), is decremented and then tested with `>= 0`: 0 - 1 wraps "
+           f"to 255 instead of ending the loop (IndexError / wrong trie)", rel,
+           [n.lineno for n, k, nm in fs if nm in names][0] if names else build.line,
+           sample=[(k, nm, n.lineno) for n, k, nm in fs])
+    plumbing(ctx, "S2")
+    return dict(
+        explanation=(
+            "Decides for C06: (S1) parse_arpa_lm forwards every option on its path entry point; (S2) the 11 kernel "
+            "arguments bind to the same-named model fields; (S3) builder and kernel agree on the buffer layout "
+            "(U = V + shift + (1 % N), |ids| = O + G - U, |logps| = O + G, |logbs| = |offsets| = O), the three "
+            "definitions of the sos shift agree, load_state_dict/_infer use the order>1 instance of U; (S4) on every "
+            "non-raising path load_state_dict assigns the three derived attributes and re-allocates the four "
+            "registered buffers (= required keys) from the same-named incoming tensors before delegating; (S5) "
+            "calc_full_log_probs is the chunk-size-1 instance of the chunked code; (S6) no possibly-unsigned NumPy "
+            "scalar is decremented and sign-tested without widening [F14, repaired]. NOT decided: the back-off "
+            "recursion, trie layout, strided evaluation (index arithmetic over runtime tables)."),
+        decided=["S1", "S2", "S3", "S4", "S5", "S6"],
+        not_decided=["Katz back-off recursion values", "trie layout for all sparsity patterns", "chunked == full values"],
+        assumptions=["NumPy 2 (NEP 50) promotion: uint8 scalar + python int stays uint8"],
+    )
+
+
+def _mutants():
+    from selftest.mutate import Mutant as M
+    L = "_lm.py"
+    return [
+        M("drop-int-widening", L, "parent = int(parents[prefix]) + last_start", "parent = parents[prefix] + last_start",
+          "unsigned-scalar-decremented"),
+        M("kernel-N-G-swapped", L, "self.vocab_size, self.max_ngram, self.max_ngram_nodes, self.max_direct_descendants)",
+          "self.vocab_size, self.max_ngram_nodes, self.max_ngram, self.max_direct_descendants)", "G1/S2"),
+        M("kernel-logps-logbs-swapped", L, "self.logps, self.logbs, self.sos", "self.logbs, self.logps, self.sos", "G1/S2"),
+        M("kernel-U-off", L, "U = V + shift + 1 % N\n    I, P", "U = V + shift + 1\n    I, P", "layout::U"),
+        M("builder-P-off", L, "I, P = (O + G - U, O + G)\n        if N > 1:", "I, P = (O + G - U, O + G + 1)\n        if N > 1:", "layout::size(logps)"),
+        M("load-skip-realloc", L, "self.logbs = torch.empty_like(logbs, device=self.logbs.device)", "pass", "definite-assignment"),
+        M("load-skip-max-ngram", L, "self.max_ngram_nodes = self.vocab_size + self.shift\n            self.max_ngram = 1",
+          "self.max_ngram_nodes = self.vocab_size + self.shift", "definite-assignment"),
+        M("load-realloc-wrong-source", L, "self.logbs = torch.empty_like(logbs, device=self.logbs.device)",
+          "self.logbs = torch.empty_like(logps, device=self.logbs.device)", "realloc(logbs)"),
+        M("load-U-wrong", L, "U = self.vocab_size + self.shift + 1\n            if len(offsets) < U:",
+          "U = self.vocab_size + 1\n            if len(offsets) < U:", "load_state_dict::U"),
+        M("full-not-chunked", L, "return self.calc_full_log_probs_chunked(hist, prev, 1)",
+          "return self.calc_full_log_probs_chunked(hist, prev, hist.size(0))", "=chunked(hist, prev, 1)"),
+        M("shift-differs", L, "shift = 0 if 0 <= sos < V else 1", "shift = 0 if 0 < sos < V else 1", "shift-definitions-agree"),
+        M("arpa-drop-option", "_parsing.py", "return parse_arpa_lm(f, token2id, to_base_e, ftype, logger)",
+          "return parse_arpa_lm(f, token2id, to_base_e, ftype)", "G6/S1"),
+        M("twin:reformat", L, "I, P = (O + G - U, O + G)\n        if N > 1:", "I = O + G - U\n        P = O + G\n        if N > 1:", "", twin=True),
+    ]
+
+
+def selftest(ctx: Ctx):
+    from selftest.mutate import run_selftest
+    return run_selftest("C06", ctx.pkg.repo, _mutants(), floor=10)
+
+
+MANIFEST = dict(
+    level_text=(
+        "Static analysis (no execution) of LookupLanguageModel: writer/reader agreement of the flat-buffer layout "
+        "constants in polynomial normal form, argument binding of the 11-parameter kernel, definite assignment of "
+        "derived attributes and buffer re-allocation on every non-raising path of load_state_dict, single code path "
+        "for full/chunked evaluation, path/file re-dispatch of the ARPA reader, and a taint rule for possibly-unsigned "
+        "NumPy scalars that are decremented and sign-tested. Necessary conditions of 'same numbers after save/load', "
+        "'all at once or in chunks', 'integer width selection'; the back-off recursion itself is not decided."),
+    level_note="Trusted: python ast; NumPy 2 promotion rules. F14 (uint8 parent index wraps; the 7 always-failing "
+               "baseline tests) was found by G21 and repaired by a fix: commit.",
+    technique="static analysis: polynomial normal forms of layout constants, path-based definite assignment, argument binding, numeric-type taint",
+    design_ref="DESIGN.md section 4 C06",
+)
